@@ -66,3 +66,54 @@ Proof.
     + apply Qleb_false in E. intros t Ht C. cbn [inI] in S. assert (t1 <= t <= t2) by (apply S; tauto). lra.
   - intros t Ht C. apply (proj2 (S t)). tauto.
 Qed.
+
+(* the reject half of the tolerant judgement is sound: if it lets a rejection pass, then no point of the input segment lies inside the
+   rectangle deflated by eps (that is: nothing is inside by more than eps) *)
+Theorem sandwich_reject_sound eps s xmin xmax ymin ymax r :
+  sandwich_ok eps s xmin xmax ymin ymax false r = true ->
+  forall t, 0 <= t <= 1 -> ~ inside_rect (xmin + eps) (xmax - eps) (ymin + eps) (ymax - eps) (seg_x s t) (seg_y s t).
+Proof.
+  unfold sandwich_ok. cbv zeta. cbn [negb].
+  destruct (Qleb (xmin + eps) (xmax - eps) && Qleb (ymin + eps) (ymax - eps)) eqn:E.
+  - pose proof (exact_clip_spec s (xmin + eps) (xmax - eps) (ymin + eps) (ymax - eps)) as S.
+    destruct (exact_clip s (xmin + eps) (xmax - eps) (ymin + eps) (ymax - eps)) as [[t1 t2]|]; [discriminate|]. intros _. exact S.
+  - intros _ t Ht [Hx Hy]. apply andb_false_iff in E. destruct E as [E|E]; apply Qleb_false in E; lra.
+Qed.
+
+(* the accept half: what the judgement certifies about a returned segment r *)
+Lemma d2seg_witness ax ay bx by_ px py e2 : d2seg ax ay bx by_ px py <= e2 ->
+  exists t, 0 <= t <= 1 /\ sq (px - (ax + t * (bx - ax))) + sq (py - (ay + t * (by_ - ay))) <= e2.
+Proof.
+  unfold d2seg. cbv zeta. destruct (Qeqb (sq (bx - ax) + sq (by_ - ay)) 0).
+  - intros H. exists 0. split; [lra|]. unfold sq in *.
+    setoid_replace (px - (ax + 0 * (bx - ax))) with (px - ax) by ring. setoid_replace (py - (ay + 0 * (by_ - ay))) with (py - ay) by ring. exact H.
+  - set (t := Qmax 0 (Qmin 1 _)). intros H. exists t. split; [|exact H].
+    unfold t. split; [apply Q.le_max_l|]. apply Q.max_lub; [lra|apply Q.le_min_l].
+Qed.
+
+Lemma outside_by_spec xmin xmax ymin ymax px py e : outside_by xmin xmax ymin ymax px py <= e ->
+  xmin - e <= px /\ px <= xmax + e /\ ymin - e <= py /\ py <= ymax + e /\ 0 <= e.
+Proof.
+  unfold outside_by. intros H.
+  apply Q.max_lub_iff in H. destruct H as [H1 H2]. apply Q.max_lub_iff in H1. destruct H1 as [H1a H1b].
+  apply Q.max_lub_iff in H2. destruct H2 as [H2 H0]. apply Q.max_lub_iff in H2. destruct H2 as [H2a H2b]. repeat split; lra.
+Qed.
+
+Theorem sandwich_accept_sound eps s xmin xmax ymin ymax r :
+  sandwich_ok eps s xmin xmax ymin ymax true r = true ->
+  (* both returned endpoints are within eps of a point of the input segment ... *)
+  (exists t, 0 <= t <= 1 /\ sq (x1 r - seg_x s t) + sq (y1 r - seg_y s t) <= sq eps) /\
+  (exists t, 0 <= t <= 1 /\ sq (x2 r - seg_x s t) + sq (y2 r - seg_y s t) <= sq eps) /\
+  (* ... and within eps of the rectangle in each coordinate *)
+  (xmin - eps <= x1 r /\ x1 r <= xmax + eps /\ ymin - eps <= y1 r /\ y1 r <= ymax + eps) /\
+  (xmin - eps <= x2 r /\ x2 r <= xmax + eps /\ ymin - eps <= y2 r /\ y2 r <= ymax + eps).
+Proof.
+  unfold sandwich_ok. cbv zeta. cbn [negb]. intros H.
+  apply andb_true_iff in H. destruct H as [H _]. apply andb_true_iff in H. destruct H as [H _].
+  apply andb_true_iff in H. destruct H as [Hs Hr].
+  apply andb_true_iff in Hs. destruct Hs as [S1 S2]. apply andb_true_iff in Hr. destruct Hr as [R1 R2].
+  apply Qleb_iff in S1, S2, R1, R2.
+  split; [exact (d2seg_witness _ _ _ _ _ _ _ S1)|]. split; [exact (d2seg_witness _ _ _ _ _ _ _ S2)|].
+  destruct (outside_by_spec _ _ _ _ _ _ _ R1) as (A1 & A2 & A3 & A4 & _).
+  destruct (outside_by_spec _ _ _ _ _ _ _ R2) as (B1 & B2 & B3 & B4 & _). tauto.
+Qed.
